@@ -246,7 +246,7 @@ def group_sibling_covered(fx, tu, owner_cls, field, drained_fields):
     return '%d initiation site(s), each inside a wait_for_one group with a drained sibling' % sites
 
 
-def rule_drain_members(fx, cg, v):
+def rule_drain_members(fx, cg, v, prop='C05', rid='R-DRAIN-M', floor=40):
     n = 0
     for tu in fx.tus:
         if tu.startswith('test_'):
@@ -276,15 +276,15 @@ def rule_drain_members(fx, cg, v):
                 n += 1
                 name = '.'.join(path)
                 if path in drained:
-                    v.ok('R-DRAIN-M', '%s [%s]' % (name, tu), drained[path])
+                    v.ok(rid, '%s [%s]' % (name, tu), drained[path])
                     continue
                 cov = group_sibling_covered(fx, tu, owner, fld['n'], drained_names | {'_stream_ptr'})
-                v.check(cov is not None, 'R-DRAIN-M', '%s [%s]' % (name, tu),
+                v.check(cov is not None, rid, '%s [%s]' % (name, tu),
                         cov or 'member of type %s can park a completion handler but client_service::cancel() '
                         'never drains it (declared at %s)' % (kind, fld.get('l')),
-                        key='C05:R-DRAIN-M:%s' % name, where=fld.get('l', ''))
+                        key='%s:%s:%s' % (prop, rid, name), where=fld.get('l', ''))
             v.saw(cancel)
-    v.expect_min('R-DRAIN-M', 40, '10 parking members × client_service instantiations')
+    v.expect_min(rid, floor, '10 parking members × client_service instantiations')
 
 
 # ----------------------------------------------------------------- R-DRAIN queue
